@@ -3,6 +3,7 @@ package props
 import (
 	"go/token"
 	"go/types"
+	"strings"
 
 	"golang.org/x/tools/go/ssa"
 
@@ -721,6 +722,110 @@ func runC09(c *an.Ctx) {
 		}
 	}
 	c.Min("O5 count-accumulation constructs", nAcc, 1)
+
+	// ---- O2b (round 11): a Seek that reports success leaves the position field equal to the position it reports:
+	// it returns the field itself, a value tested equal to the field, or a value stored into the field (0 after a reset)
+	{
+		nRet := 0
+		for _, fn := range fns {
+			if !an.XBIsSeek(fn) || fn.Signature.Recv() == nil || !strings.Contains(fn.Signature.Recv().Type().String(), readerType) {
+				continue
+			}
+			var offLoads []ssa.Value
+			an.Instrs(fn, func(in ssa.Instruction) {
+				if v, ok := in.(ssa.Value); ok && c09LoadOfField(v, fOff) {
+					offLoads = append(offLoads, v)
+				}
+			})
+			isOffLoad := func(v ssa.Value) bool {
+				for _, l := range offLoads {
+					if l == v {
+						return true
+					}
+				}
+				return false
+			}
+			for _, ret := range an.Returns(fn) {
+				if len(ret.Results) != 2 || !an.IsNilConst(ret.Results[1]) {
+					continue
+				}
+				v := an.XBStripConv(ret.Results[0])
+				nRet++
+				ok := isOffLoad(v)
+				if !ok {
+					eq := an.XBEdgesWhere(fn, func(r an.XBRel) bool {
+						x, y := an.XBStripConv(r.X), an.XBStripConv(r.Y)
+						return r.Op == token.EQL && ((x == v && isOffLoad(y)) || (y == v && isOffLoad(x)))
+					})
+					ok = len(eq) > 0 && an.GuardedBy(fn, nil, ret, eq)
+				}
+				if !ok {
+					var sets []ssa.Instruction
+					k, isK := an.XBInt64(v)
+					for _, st := range an.FieldStores(fn, fOff) {
+						sv := an.XBStripConv(st.Val)
+						if sv == v {
+							sets = append(sets, st)
+						} else if k2, isK2 := an.XBInt64(sv); isK && isK2 && k == k2 {
+							sets = append(sets, st)
+						}
+					}
+					if isK && k == 0 {
+						for _, call := range an.AllCalls(fn) {
+							if t := an.Callee(call).Static; t != nil && resetFns[t] {
+								sets = append(sets, call)
+							}
+						}
+					}
+					ok = len(sets) > 0 && an.MustPrecede(fn, ret, sets)
+				}
+				c.Check(ok, "O2", "R-POST", an.FuncName(fn), "success-return=>position-field=reported", ret.Pos(),
+					"a successful Seek reports the position its position field holds",
+					"Seek returns success with a position that is neither the position field, nor tested equal to it, nor stored into it before (0 only after a reset): the reported position and the reader state disagree, the next Read continues from the old place")
+			}
+		}
+		c.Min("O2 success returns of the reader's Seek", nRet, 1)
+	}
+
+	// ---- O5b (round 11): the DAG walk is resumed only after the bytes kept in the leaf buffer were handed out:
+	// every path to Walker.Iterate found the buffer nil or ran a consumer of it
+	{
+		nWalk := 0
+		for _, fn := range fns {
+			if fn.Signature.Recv() == nil || !strings.Contains(fn.Signature.Recv().Type().String(), readerType) {
+				continue
+			}
+			its := an.Calls(fn, an.M("github.com/ipfs/go-ipld-format", "Walker", "Iterate"))
+			if len(its) == 0 {
+				continue
+			}
+			var curLoads []ssa.Value
+			blocked := map[ssa.Instruction]bool{}
+			an.Instrs(fn, func(in ssa.Instruction) {
+				if v, ok := in.(ssa.Value); ok && c09LoadOfField(v, fCur) {
+					curLoads = append(curLoads, v)
+				}
+			})
+			for _, call := range an.AllCalls(fn) {
+				if t := an.Callee(call).Static; t != nil && consumerFns[t] {
+					blocked[call] = true
+				}
+			}
+			for _, call := range an.Calls(fn, brRead...) {
+				if c09LoadOfField(an.Recv(call), fCur) {
+					blocked[call] = true
+				}
+			}
+			nilE := an.NilEdges(fn, curLoads, true)
+			for _, it := range its {
+				nWalk++
+				c.Check(!an.Reaches(fn, nil, it, nilE, blocked), "O5", "R-DOM", an.FuncName(fn), "walk<=leaf-buffer-consumed", it.Pos(),
+					"the walk continues only after the buffered leaf bytes were handed out (or none were buffered)",
+					"the DAG walk is resumed on a path that neither found the leaf buffer nil nor consumed it: the visitor replaces the buffer and the unread bytes of the current leaf are skipped")
+			}
+		}
+		c.Min("O5 resumptions of the DAG walk", nWalk, 1)
+	}
 
 	// ---- O4: seek arithmetic in the visitor passed to Walker.Seek and in the package-local functions it calls
 	{
